@@ -671,6 +671,15 @@ def check_getline(chk, v):
         # character variables: locals assigned from a character source
         cvars = {("var", x["name"], x["id"]) for x in flat(eff) if x["e"] == "local" and isinstance(x.get("val"), tuple)
                  and x["val"][0] == "call" and x["val"][1] in CHAR_SOURCES}
+        # ... and the value of a character-source call used directly (a variable assigned inside the loop condition carries it)
+        cvalues = {x["ret"] for x in calls if x["name"] in CHAR_SOURCES and isinstance(x.get("ret"), tuple) and x["ret"][0] == "call"}
+        # one character = the variable it is read into together with the value of the call (a variable assigned inside the loop
+        # condition carries the value term)
+        aliases = {}
+        for x in flat(eff):
+            if x["e"] == "local" and isinstance(x.get("val"), tuple) and x["val"] in cvalues:
+                aliases.setdefault(("var", x["name"], x["id"]), set()).add(x["val"])
+        cvars |= {cv for cv in cvalues if not any(cv in al for al in aliases.values())}
         if not cvars and not bounded and not bounded_ok:
             chk.broken("%s::getLine: no character source recognised (%s)" % (f.record, names[:5]))
         SKIP = {-1, 10, 13}
@@ -687,19 +696,20 @@ def check_getline(chk, v):
             entry = x.get("cond")
             for leaves, conds, status in paths(body):
                 for c in cvars:
+                    same = {c} | aliases.get(c, set())
                     excused = False
                     for cnd, pol, line in conds:
-                        if cnd[0] == "op" and cnd[1] in ("==", "!=") and c in (cnd[2], cnd[3]):
-                            other = cnd[3] if cnd[2] == c else cnd[2]
+                        if cnd[0] == "op" and cnd[1] in ("==", "!=") and (cnd[2] in same or cnd[3] in same):
+                            other = cnd[3] if cnd[2] in same else cnd[2]
                             kv = sym.const_value(other)
                             if kv in SKIP and pol == (cnd[1] == "=="):
                                 excused = True
                     appended = any(y["e"] == "call" and re.search(r"::(push_back|append|operator\+=)$", y["name"]) and
                                    sym.root_of(y.get("this") or ("int", 0)) is not None and sym.root_of(y["this"])[1] == out and
-                                   any(a is not None and sym.contains(a, c) for a in y["args"]) for y in leaves)
+                                   any(a is not None and any(sym.contains(a, c_) for c_ in same) for a in y["args"]) for y in leaves)
                     if not excused and not appended:
                         discarded.append("a character read into '%s' is dropped on the loop path with conditions %s (loop at line %s)" % (
-                            c[1], [("" if pol else "!") + sym.show(cnd) for cnd, pol, _ in conds] or "none", x["l"]))
+                            c[1] if c[0] == "var" else sym.show(c), [("" if pol else "!") + sym.show(cnd) for cnd, pol, _ in conds] or "none", x["l"]))
         problems += sorted(set(discarded))[:2]
         if bounded and not discarded:
             # a bounded read whose remainder is not discarded: cannot be decided here
